@@ -4,6 +4,8 @@ package db
 
 import (
 	"context"
+	"github.com/couchbase/sync_gateway/channels"
+	"sync"
 
 	"github.com/couchbase/sync_gateway/auth"
 	"github.com/couchbase/sync_gateway/base"
@@ -140,6 +142,69 @@ func VHarness_C02_AllowList() {
 		if total == 0 {
 			vCover("allow-list-empty")
 			vAssert(len(bsc.allowedAttachments) == 0, "nothing stays downloadable after every revision has been acknowledged")
+		}
+	}
+}
+
+// ---- which principal documents an open connection watches
+
+type vhRoleUser struct {
+	auth.User
+	name  string
+	roles channels.TimedSet
+}
+
+func (u *vhRoleUser) Name() string                 { return u.name }
+func (u *vhRoleUser) RoleNames() channels.TimedSet { return u.roles }
+
+var vhWatchRoles = [3]string{"r1", "r2", "r3"}
+
+func vhRoleSet() (channels.TimedSet, [3]bool) {
+	var has [3]bool
+	ts := channels.TimedSet{}
+	for i, r := range vhWatchRoles {
+		if vNondetBool() {
+			has[i] = true
+			ts[r] = channels.NewVbSimpleSequence(1)
+		}
+	}
+	return ts, has
+}
+
+// VHarness_C02_WatchedPrincipalKeys: a long-lived connection (continuous changes feed, BLIP) re-reads its user when a
+// watched principal document changes; after RefreshUserKeys the connection watches exactly the user's document and
+// the documents of the roles the user has now - whatever roles it had before (added, removed, swapped one for one).
+func VHarness_C02_WatchedPrincipalKeys() {
+	metaKeys := base.DefaultMetadataKeys
+	listener := &changeListener{tapNotifier: sync.NewCond(&sync.Mutex{}), keyCounts: map[channels.ID]uint64{}, metaKeys: metaKeys}
+	oldRoles, _ := vhRoleSet()
+	newRoles, newHas := vhRoleSet()
+	waiter := listener.NewWaiterWithChannels(channels.Set{}, &vhRoleUser{name: "alice", roles: oldRoles}, false)
+	vMapOrder(1)
+	waiter.RefreshUserKeys(&vhRoleUser{name: "alice", roles: newRoles}, metaKeys)
+	vMapOrder(0)
+	userKey := channels.NewID(metaKeys.UserKey("alice"), principalDocCollectionIDForChannelID)
+	seenUser := false
+	var seenRole [3]bool
+	for _, k := range waiter.userKeys {
+		matched := false
+		if k == userKey {
+			seenUser, matched = true, true
+		}
+		for i, r := range vhWatchRoles {
+			if k == channels.NewID(metaKeys.RoleKey(r), principalDocCollectionIDForChannelID) {
+				seenRole[i], matched = true, true
+			}
+		}
+		vAssert(matched, "only the user's and roles' documents are watched")
+	}
+	vAssert(seenUser, "the user's own document is watched")
+	for i := range vhWatchRoles {
+		if newHas[i] {
+			vCover("role-watched")
+			vAssert(seenRole[i], "the document of every role the user has now is watched (a change of its channels reaches the connection)")
+		} else {
+			vAssert(!seenRole[i], "a role the user no longer has is not watched")
 		}
 	}
 }
